@@ -261,6 +261,68 @@ class Session:
             res["dump"] = self.ask("dump")
         return res
 
+    def run_deferred(self, sc, cap=CAP_DEFAULT):
+        """'Generate now, transmit later': a sequence none of whose commands expects an answer (settc, settclimit)
+        is run to its end first and its command OBJECTS are kept; then the same sequence is generated for another
+        destination (`sc["deferred"]`, e.g. the next luminaire of a scene), its objects kept alive too; only then
+        are the first sequence's frames read off the kept objects and transmitted, in order, to the Lean bus.
+        A command object is a value: what it carries cannot depend on commands built after it.  Same result dict
+        as `run`."""
+        from dali import command
+        start, factory, fmt = build(sc)
+        env = ("stream " + " ".join(sc["stream"])) if "stream" in sc else ("bus " + " ".join(sc["bus"]))
+        a = self.ask(env + " ; " + start)
+        if a != "ok ; ok":
+            raise InfraError("driver refused scenario %r: %s" % (sc, a))
+        res = {"agree": True, "detail": "", "post": "n/a", "n": 0, "result": None, "problem": None}
+
+        def collect(fac):
+            objs, outcome = [], None
+            try:
+                gen = fac()
+                first = True
+                while True:
+                    obj = next(gen) if first else gen.send(None)
+                    first = False
+                    if isinstance(obj, command.Command):
+                        objs.append(obj)
+                        if len(objs) > cap:
+                            gen.close()
+                            return objs, "LOOP"
+            except StopIteration as e:
+                v = fmt(e.value)
+                outcome = "BAD-RETURN" if v is None else "ret " + v
+            except Exception as e:  # noqa
+                outcome = "err " + type(e).__name__
+            return objs, outcome
+        objs, outcome = collect(factory)
+        later = []
+        for other in sc["deferred"]:
+            later.append(collect(build(dict(sc, dest=other))[1]))      # kept alive until the end of this run
+        for obj in objs:
+            res["n"] += 1
+            r = self.ask("cmd %d %s %d" % (obj.frame.as_integer, type(obj).__name__, obj.devicetype))
+            if r == "bad-op":
+                res.update(problem="unexpected command %s frame %#x" % (type(obj).__name__, obj.frame.as_integer),
+                           result="UNKNOWN-COMMAND", agree=False, post="FAIL")
+                res["detail"] = res["problem"]
+                return res
+        if outcome in ("LOOP", "BAD-RETURN"):
+            res.update(problem=outcome, result=outcome, agree=False, post="FAIL", detail=outcome)
+            return res
+        res["result"] = outcome
+        a = self.ask("end " + outcome)
+        if a == "bad-op":
+            res.update(agree=False, post="FAIL", detail="driver cannot read outcome " + outcome,
+                       problem="outcome " + outcome)
+            return res
+        parts = a.split()
+        res["agree"] = parts[0] == "agree"
+        res["detail"] = parts[0]
+        res["post"] = parts[1].split("=", 1)[1]
+        del later
+        return res
+
     def selfrun(self, sc):
         """the model alone against the same environment: '<outcome> post=… n=…'"""
         start, _, _ = build(sc)
@@ -282,7 +344,7 @@ def judge(corr, suite, key, sc, res, note=""):
 def replay_scenario(sc):
     s = Session()
     try:
-        res = s.run(sc, dump=True)
+        res = s.run_deferred(sc) if sc.get("deferred") else s.run(sc, dump=True)
         model = s.selfrun(sc)
     finally:
         s.close()
